@@ -1,11 +1,16 @@
 """
 Some simple comparison expression normalization functions.
 """
+import re
 import socket
 
 from stix2.equivalence.pattern.compare.comparison import (
     object_path_to_raw_values,
 )
+
+# Dotted-decimal IPv4 addresses and CIDR prefix sizes, in ASCII digits only
+_IPV4_RE = re.compile(r"^[0-9]{1,3}(\.[0-9]{1,3}){3}\Z")
+_PREFIX_SIZE_RE = re.compile(r"^[0-9]{1,3}\Z")
 
 # Values we can use as wildcards in path patterns
 _ANY_IDX = object()
@@ -137,18 +142,24 @@ def ipv4_addr(comp_expr):
         else:
             ip_str = value
 
-        try:
-            ip_bytes = socket.inet_aton(ip_str)
-        except OSError:
+        # (inet_aton() alone is too lenient: it accepts fewer than four parts,
+        # octal and hex parts and trailing garbage.)
+        if not _IPV4_RE.match(ip_str):
             # illegal IPv4 address string
             return
 
+        try:
+            ip_bytes = bytes(int(part) for part in ip_str.split("."))
+        except ValueError:
+            # a part is larger than 255
+            return
+
         if is_cidr:
-            try:
-                prefix_size = int(value[slash_idx+1:])
-            except ValueError:
+            if not _PREFIX_SIZE_RE.match(value[slash_idx+1:]):
                 # illegal prefix size
                 return
+
+            prefix_size = int(value[slash_idx+1:])
 
             if prefix_size < 0 or prefix_size > 32:
                 # illegal prefix size
@@ -205,11 +216,11 @@ def ipv6_addr(comp_expr):
             return
 
         if is_cidr:
-            try:
-                prefix_size = int(value[slash_idx+1:])
-            except ValueError:
+            if not _PREFIX_SIZE_RE.match(value[slash_idx+1:]):
                 # illegal prefix size
                 return
+
+            prefix_size = int(value[slash_idx+1:])
 
             if prefix_size < 0 or prefix_size > 128:
                 # illegal prefix size
